@@ -1079,6 +1079,14 @@ class ViewsConfiguratorMixin:
                     view_iface = ISecuredView
                 else:
                     view_iface = IView
+                for view_type in (IView, ISecuredView):
+                    # an override may be registered under the other
+                    # interface than the view it replaces
+                    self.registry.adapters.unregister(
+                        (classifier, request_iface, r_context),
+                        view_type,
+                        name=name,
+                    )
                 self.registry.registerAdapter(
                     derived_view,
                     (classifier, request_iface, context),
